@@ -283,6 +283,22 @@ func carrierAxioms() (axioms map[string]string, lemmas map[string]string) {
 (check-sat)
 `, inRange(n, "y"), conv, ext)
 	}
+	for _, c := range [][3]string{{"lt", "fp.lt", "bvslt"}, {"leq", "fp.leq", "bvsle"}, {"eq", "fp.eq", "="}} {
+		axioms["MONO_"+c[0]] = fmt.Sprintf("(forall ((x (_ BitVec 64)) (y (_ BitVec 64))) (! (=> (and %s %s) (= (%s (toF64 x) (toF64 y)) (%s x y))) :pattern ((toF64 x) (toF64 y))))", inRange("s64", "x"), inRange("s64", "y"), c[1], c[2])
+		lemmas["MONO_"+c[0]] = fmt.Sprintf(`(set-logic QF_FPBV)
+(declare-const x (_ BitVec 64))
+(declare-const y (_ BitVec 64))
+(define-fun fx () (_ FloatingPoint 11 53) ((_ to_fp 11 53) RNE x))
+(define-fun fy () (_ FloatingPoint 11 53) ((_ to_fp 11 53) RNE y))
+(assert %s)
+(assert %s)
+(assert (not (= (%s fx fy) (%s x y))))
+(check-sat)
+`, inRange("s64", "x"), inRange("s64", "y"), c[1], c[2])
+	}
+	// gc/amd64 behaviour of the implementation-defined out-of-range float->uint32 conversion
+	// (CVTTSD2SQ then truncation). ASSUMPTION, opt-in per unit, not a lemma.
+	axioms["AMD64_u32"] = fmt.Sprintf("(forall ((y (_ BitVec 64))) (! (=> %s (= (fromF_u32 (toF64 y)) ((_ extract 31 0) y))) :pattern ((fromF_u32 (toF64 y)))))", inRange("s64", "y"))
 	// toF64 is injective on exactly representable integers and fromF_s64 inverts it: covered by RT_s64.
 	// bridge: bv2i64(i2bv64 n) = n   (machine int treated as mathematical: ASSUMPTION, not proved)
 	axioms["BRIDGE_i2bv"] = "(forall ((n Int)) (! (= (bv2i64 (i2bv64 n)) n) :pattern ((i2bv64 n))))"
